@@ -1,9 +1,55 @@
-import Fpdec.Lemmas.Dom
+import Fpdec.Lemmas.Rem
 import Fpdec.Props.C10_Sites
 
-/-! # C10 — property theorems (under construction: see DESIGN.md section 6) -/
+/-!
+# C10 — Remainder satisfies the truncated-division identity exactly
+
+* `rem_core_spec`: the shared function `rem(a, p, b, q)` — equal scales, scaled divisor (or dividend already the remainder when
+  the divisor cannot be scaled), scaled dividend, and the digit loop used when the dividend cannot be re-expressed within i128 —
+  returns `(A tmod B, max p q)` for the operands re-expressed with `max p q` digits; the only other outcome is the overflow
+  signal, and only when `p < q` and the scaled dividend does not fit an i128.
+* `rem_spec`, `checked_rem_spec`, `rem_dec_int_spec`, `rem_int_dec_spec`: `%`, `checked_rem` and the integer shapes with the
+  zero-divisor (panic / `None`), zero-dividend and divisor-equals-one short cuts.
+* `tmod_is_the_remainder`: `A tmod B` is the unique `r` with `A = B·t + r`, `|r| < |B|`, `r` zero or of the sign of `A`.
+No function here takes a build-profile argument: every arithmetic site is `checked_*` or `%` (C20 for `%`).
+-/
 
 namespace Fpdec.Props.C10
 open Fpdec Fpdec.Model
+
+theorem rem_core_spec (a : Int) (p : Nat) (b : Int) (q : Nat)
+    (ha : I128_MIN < a ∧ a ≤ I128_MAX) (hb : I128_MIN < b ∧ b ≤ I128_MAX) (hb0 : b ≠ 0) (hp : p ≤ 18) (hq : q ≤ 18) :
+    Spec.allowedChecked
+      (let m := max p q
+       let A := a * (10 : Int) ^ (m - p)
+       let B := b * (10 : Int) ^ (m - q)
+       if p < q ∧ !Spec.fits A then Spec.Exp.valOrOvf (A.tmod B) m else Spec.Exp.val (A.tmod B) m)
+      (outOptPair (remCore a p b q)) = true := remCore_spec a p b q ha hb hb0 hp hq
+
+theorem rem_spec (x y : Dec) (hx : Dom x) (hy : Dom y) :
+    Spec.allowedOp (Spec.rem x.coeff x.nfrac y.coeff y.nfrac)
+      (outPair (opOfChecked (eqZero y) (if eqZero y then .ok none else remDecDec x y))) = true :=
+  Fpdec.rem_spec x y hx hy
+
+theorem checked_rem_spec (x y : Dec) (hx : Dom x) (hy : Dom y) :
+    Spec.allowedChecked (Spec.rem x.coeff x.nfrac y.coeff y.nfrac)
+      (outOptPair (checkedOfChecked (eqZero y) (if eqZero y then .ok none else remDecDec x y))) = true :=
+  Fpdec.checked_rem_spec x y hx hy
+
+theorem rem_dec_int_spec (x : Dec) (i : Int) (hx : Dom x) (hi : I128_MIN < i ∧ i ≤ I128_MAX) (hi0 : i ≠ 0) :
+    Spec.allowedChecked (Spec.rem x.coeff x.nfrac i 0) (outOptPair (remDecInt x i)) = true :=
+  Fpdec.rem_dec_int_spec x i hx hi hi0
+
+theorem rem_int_dec_spec (i : Int) (y : Dec) (hy : Dom y) (hi : I128_MIN < i ∧ i ≤ I128_MAX) (hy0 : y.coeff ≠ 0) :
+    Spec.allowedChecked (Spec.rem i 0 y.coeff y.nfrac) (outOptPair (remIntDec i y)) = true :=
+  Fpdec.rem_int_dec_spec i y hy hi hy0
+
+theorem tmod_is_the_remainder (A B r : Int) (hB : B ≠ 0) :
+    r = A.tmod B ↔ (∃ t : Int, A = B * t + r) ∧ r.natAbs < B.natAbs ∧ (r = 0 ∨ (0 < r ∧ 0 < A) ∨ (r < 0 ∧ A < 0)) :=
+  tmod_characterisation A B r hB
+
+/-! ### non-vacuity -/
+example : remCore (-25) 1 7 0 = .ok (some ⟨-25, 1⟩) ∧ remCore I128_MAX 0 3 18 = .ok (some ⟨1, 18⟩) := by decide
+example : remCore (I128_MAX / 3) 1 (I128_MAX / 5) 3 = .ok none := by decide   -- the permitted overflow (repo test test_rem_panic_ovfl)
 
 end Fpdec.Props.C10
